@@ -46,9 +46,11 @@ LeafTypes(tn) == IF ST[tn].union # <<>> THEN UNION {LeafTypes(ST[tn].union[i]) :
 
 Bounds(d) == (IF d.hasMin THEN {d.minV - 1, d.minV, d.minV + 1} ELSE {}) \cup
              (IF d.hasMax THEN {d.maxV - 1, d.maxV, d.maxV + 1} ELSE {})
+\* the literals of the type this type restricts (a restriction must refuse what it removed)
+BaseLiterals(tn) == IF tn \in DeclaredSimple /\ STDecl[tn].base \in DOMAIN ST THEN ST[STDecl[tn].base].enumcp ELSE {}
 LeafTokens(tn) ==
   LET d == ST[tn] IN
-     {Tok("str", e) : e \in d.enumcp}
+     {Tok("str", e) : e \in d.enumcp \cup BaseLiterals(tn)}
   \cup UNION {{Tok("str", w) : w \in PatWords(pid) \cup UNION {Mutants(x) : x \in PatWords(pid)}} : pid \in UNION {d.pats[g] : g \in DOMAIN d.pats}}
   \cup (IF d.prim = "decimal"
         THEN {Tok("int", IntCps(n)) : n \in Bounds(d) \cup {0 - 1, 0, 1, 7}}
